@@ -14,8 +14,8 @@ RULE = (
 )
 ASSUMPTIONS = ["for n > 7 with tied weights only necessary conditions are decided (DESIGN.md section 8 (ii))"]
 BUDGET = {
-    "quick": {"examples": 2400, "shards": 8, "min_nontrivial": 500},
-    "thorough": {"examples": 48000, "shards": 16, "min_nontrivial": 8000, "max_wall": 3000},
+    "quick": {"examples": 7200, "shards": 16, "min_nontrivial": 500},
+    "thorough": {"examples": 192000, "shards": 16, "min_nontrivial": 8000, "max_wall": 3000},
 }
 
 
